@@ -17,7 +17,9 @@ collected, `s.q` = the queue, `s.arrived` = every arrival with the clock value a
 happened, `s.taken` = what the batcher's gets returned, `s.t0` = the clock value at which the first
 item of `s.cur` was obtained (see `C19_t0_meaning`), `s.fin` = the end marker has been taken,
 `beforeEnd c l` = the items of `l` before the first end marker,
-`arrivedBefore s t` = the number of arrivals stamped `< t`.
+`arrivedBefore s t` = the number of arrivals stamped `< t`, `s.takenAt` / `s.outAt` = `s.taken` /
+`s.out` with the clock of each get / hand-over, `greedy` = the closed form (end of the model file),
+`c.strict` = zero processing time (time passes only while the batcher is blocked).
 -/
 namespace Eager
 
@@ -64,18 +66,16 @@ theorem C19_partition_waiting (c : Cfg) (hbs : 1 ≤ c.bs) (as : List Act) (s : 
   obtain ⟨hc, hf⟩ := hi.idle hp
   rw [hi.arr, hi.tak]; simp [hc, hf, hq]
 
-/-- the generator does finish once the end marker is at the head of the line: from any state in
-    which it is blocked nowhere, some step of the batcher or the consumer is enabled.  Precisely: in
-    every reachable state the generator is finished, or waits for a first item on an empty queue, or
-    waits in the timed `get` on an empty queue before the deadline (time can pass, up to the deadline
-    exactly), or one of `take`/`timeout`/`emit`/`resume`/`stop` is enabled. -/
-theorem C19_no_stall (c : Cfg) (hbs : 1 ≤ c.bs) (as : List Act) (s : State)
-    (h : Core.run (step c) init as = some s) :
+/-- the batcher is never stuck: in every state (reachable or not) the generator is finished, or waits for a
+    first item on an empty queue (only the producer can help), or waits in the timed `get` on an empty
+    queue before the deadline (then time can pass, up to the deadline exactly), or one of
+    `take`/`timeout`/`emit`/`resume`/`stop` is enabled.  In particular a queued item or end marker is
+    always takeable while the batcher is in one of its two gets. -/
+theorem C19_no_stall (c : Cfg) (s : State) :
     s.pc = .done ∨ (s.pc = .idle ∧ s.q = []) ∨
     (s.pc = .coll ∧ s.q = [] ∧ s.clock < s.t0 + c.wait ∧
       (step c s (.tick (s.t0 + c.wait - s.clock))).isSome) ∨
     (∃ a ∈ [Act.take, .timeout, .emit, .resume, .stop], (step c s a).isSome) := by
-  have hi := all_reachable c hbs ⟨as, h⟩
   cases hpc : s.pc with
   | done => exact .inl rfl
   | idle =>
